@@ -9,4 +9,10 @@ def obligations(tier):
         if tier == 'thorough': obs += [hdrobs.smuggle(1, 1, 0, o, tier='thorough'), hdrobs.smuggle(1, 1, 2, o, tier='thorough')]
     obs.append(hdrobs.smuggle(2, 0, 0)); obs.append(hdrobs.smuggle(2, 1, 1))
     if tier == 'thorough': obs += [hdrobs.smuggle(2, 1, 0, tier='thorough'), hdrobs.smuggle(2, 1, 2, tier='thorough')]
+    # invalid-host indicator for out-of-range ports (Host header uses htp_parse_hostport), duplicate detection is case-insensitive (real table),
+    # and the indicators do not depend on segmentation (merge lemma on the folded-header shape)
+    import streamobs as so
+    obs += [o for o in __import__('C13').obligations(tier) if o.name.startswith('hostport.')]
+    obs += [o for o in __import__('C17').obligations(tier) if o.name.startswith('table.K')]
+    obs += so.split('req', 1, 'x:x\r\n x\r\n\r\n', cuts=(4, 5, 6))
     return obs
